@@ -211,8 +211,10 @@ class World(H.World):
                 self.env.substituter.substitute(f, {sym: bad})
             elif k == "subst_bad4":
                 f = self.F[ev[1]]
-                sub = dict(H.SUBST_MAPS["4keys"](self.m, self.S))
-                sub[self.S["st"]] = self.m.String("zz")
+                # five entries whose keys differ from those of the probes' four-entry map (x and y are not keys
+                # unless they are the type-breaking one)
+                sub = {self.S["r"]: self.m.Real(2), self.S["u"]: self.m.BV(2, 2), self.S["st"]: self.m.String("zz"),
+                       self.S["b"]: self.S["a"]}
                 sub[self.S[ev[2]]] = self.S[BAD_VALUE[H.UNIVERSE_SYMS[ev[2]]]]
                 self.env.substituter.substitute(f, sub)
             elif k == "parse_smt_cut":
